@@ -56,6 +56,7 @@ type Interp struct {
 	held        map[*SyncObj]lockMode
 	race        *raceMon
 	mapOrder    bool
+	fmtExact    bool
 }
 
 func (in *Interp) fail(format string, a ...interface{}) {
